@@ -3,7 +3,7 @@
 (syn::parse2 stubbed: the argument parser is the stubbed layer, see DESIGN.md §1)."""
 import z3
 from engine import Ref, Cell, SymStr, Opq, EnumV, Agg, Unsupported
-from models import ok, IdentV, EXACT
+from models import ok, IdentV
 from tokens import TS
 from build import B, MEMBER_MAP_NAMES, TRAIT_NAMES
 
@@ -15,11 +15,9 @@ TYPE_UNI = MEMBER_UNI
 
 
 def stub_parse2(e):
-    """syn::parse2::<T>(tokens) -> Ok(opaque T): the syn-driven argument parser is not executed"""
-    def f(eng, args, info):
-        return ok(Opq('parsed', info[2].split('::<', 1)[1][:-1] if '::<' in info[2] else info[2]))
-    f.__name__ = 'stub_syn_parse2'
-    EXACT['syn::parse2'] = f
+    """syn::parse2::<T>(tokens) -> Ok(opaque T): the argument parser is not executed in the name->summary explorations"""
+    import synmodel  # noqa: registers the real model of syn::parse2; the per-engine flag below selects the stub
+    e.stub_parse2 = True
 
 
 def _explore_instr(ctx, e, fn_name, uni):
@@ -35,6 +33,7 @@ def _explore_instr(ctx, e, fn_name, uni):
         eng.aux['vars'] = (atom, own, bark)
         return r
     res = e.explore(run)
+    e.stub_parse2 = False
     ctx.absorb(e, res)
     return res
 
